@@ -203,6 +203,33 @@ def core_core(method, ZA, ZB, gamma, R, alphaA, alphaB, first_is_N_or_O_second_i
     return e + ZA * ZB / R * g
 
 
+def core_core_pm6(ZA, ZB, nA, nB, numA, numB, gamma, R, x, alpha, gaussA, gaussB, exp, cbrt):
+    """PM6 core-core repulsion (Stewart, J. Mol. Model. 13 (2007) 1173, eqs. 5-8; MOPAC's ccrep), R in Angstrom:
+         E = Z_A Z_B (ss|ss) [1 + 2 x_AB exp(-alpha_AB (R + 0.0003 R^6))]                       general pair
+         E = Z_A Z_B (ss|ss) [1 + 2 x_AB exp(-alpha_AB R^2)]                                     C-H, N-H, O-H
+           + Z_A Z_B (ss|ss) 9.28 exp(-5.98 R)                                                  C-C, in addition
+           - Z_A Z_B (ss|ss) 0.0007 exp(-(R - 2.9)^2)                                           Si-O, in addition
+           + 1e-8 [(Z'_A^(1/3) + Z'_B^(1/3)) / R]^12                                             every pair (Z' atomic numbers)
+           + Z_A Z_B / R * sum of the atoms' Gaussians K exp(-L (R - M)^2)
+       nA >= nB are the atomic numbers; x = x_AB, alpha = alpha_AB (2 x: MOPAC stores the pair parameter halved)."""
+    from fractions import Fraction as Fr
+
+    if nB == 1 and nA in (6, 7, 8):
+        scale = 1 + 2 * x * exp(-alpha * R * R)
+    else:
+        scale = 1 + 2 * x * exp(-alpha * (R + Fr(3, 10000) * R ** 6))
+    e = ZA * ZB * gamma * scale
+    if nA == 6 and nB == 6:
+        e = e + ZA * ZB * gamma * Fr(928, 100) * exp(-Fr(598, 100) * R)
+    if nA == 14 and nB == 8:
+        e = e - ZA * ZB * gamma * Fr(7, 10000) * exp(-(R - Fr(29, 10)) ** 2)
+    e = e + Fr(1, 10**8) * ((cbrt(numA) + cbrt(numB)) / R) ** 12
+    g = 0
+    for (K, L, M) in list(gaussA) + list(gaussB):
+        g = g + K * exp(-L * (R - M) ** 2)
+    return e + ZA * ZB / R * g
+
+
 # ----------------------------------------------------------------------------
 # closed-shell NDDO Fock matrix (textbook:  F = h + J - K/2 under zero differential overlap)
 
